@@ -35,6 +35,7 @@ def main():
     ap.add_argument("--tier", default="quick")
     ap.add_argument("--out", default="mutants-last.json")
     ap.add_argument("--with", dest="extra", default="", help="comma-separated extra checks to run besides the own one")
+    ap.add_argument("--checks", default="", help="comma-separated: run exactly these checks (refactor mode)")
     a = ap.parse_args()
     if a.refactors:
         a.others = True
@@ -80,7 +81,11 @@ def _run_items(a, items, results, check_cmd):
                 tests = t.stdout.strip().splitlines()[-1] if t.stdout.strip() else f"rc={t.returncode}"
             row = {"mutant": name, "property": prop, "tests": tests, "checks": {}}
             extra = [c for c in a.extra.split(",") if c and c != prop]
-            for cid in ([prop] + ([c for c in CLAIMED if c != prop] if a.others else extra)):
+            todo = [prop] + ([c for c in CLAIMED if c != prop] if a.others else extra)
+            if a.checks:
+                todo = [c for c in a.checks.split(",") if c]
+                prop = todo[0]
+            for cid in todo:
                 env = {**os.environ, "VERIF_REPO": scratch, "VERIF_OUT": out}
                 if a.runs:
                     env["VERIF_RUNS"] = str(a.runs)
